@@ -286,18 +286,35 @@ pub fn check_bin(op: &str, a: &V, b: &V, sub: &str, pooled: bool, acc: &mut Acc)
     out
 }
 
+/// n-fold unary minus: the model applies the single negation n times ("--x" is -(-x))
+pub fn model_neg_run(a: &V, n: usize) -> Exp {
+    let mut cur = a.clone();
+    for _ in 0..n {
+        match model_neg(&cur) {
+            Exp::Val(v) => cur = v,
+            other => return other,
+        }
+    }
+    Exp::Val(cur)
+}
+
 pub fn check_neg(a: &V, sub: &str, acc: &mut Acc) -> Vec<Failure> {
-    let exp = model_neg(a);
-    let canon = format!("neg {}", a.canon());
-    let class = format!("neg:{}", a.type_name());
+    check_neg_run(a, 1, sub, acc)
+}
+
+/// a run of n minus signs in front of a literal and in front of a bound variable
+pub fn check_neg_run(a: &V, n: usize, sub: &str, acc: &mut Acc) -> Vec<Failure> {
+    let exp = model_neg_run(a, n);
+    let canon = format!("neg{} {}", n, a.canon());
+    let class = if n == 1 { format!("neg:{}", a.type_name()) } else { format!("neg-run{}:{}", n, a.type_name()) };
     acc.case(sub, &canon, true, &class);
     if let Exp::Unspecified = exp {
         acc.skip("model: unspecified operand combination (only totality is checked)");
     }
     let Some(la) = a.lit() else { return vec![] };
     // a literal that is itself rendered with a leading minus is parenthesised by lit()
-    let lit_src = format!("-{}", la);
-    let var_src = "-x".to_string();
+    let lit_src = format!("{}{}", "-".repeat(n), la);
+    let var_src = format!("{}x", "-".repeat(n));
     let binds = vec![("x".to_string(), a.clone())];
     let lit = eval(&lit_src, &[]).res.sum();
     let var = eval(&var_src, &binds).res.sum();
@@ -315,18 +332,18 @@ pub fn check_neg(a: &V, sub: &str, acc: &mut Acc) -> Vec<Failure> {
                 mode.to_string()
             };
             out.push(Failure::new(
-                format!("c03:neg:{}:{}", a.type_name(), mode),
+                format!("c03:{}:{}:{}", if n == 1 { "neg" } else { "neg-run" }, a.type_name(), mode),
                 format!("{} with x={} ({} form): expected {}, got {}", src, a.canon(), form, exp_show(&exp), got.show()),
-                json!({"kind": "neg", "a": vjson(a), "form": form, "source": src,
+                json!({"kind": "neg", "a": vjson(a), "n": n, "form": form, "source": src,
                        "expected": exp_show(&exp), "actual": got.show()}),
             ));
         }
     }
     if out.is_empty() && lit.coarse() != var.coarse() {
         out.push(Failure::new(
-            format!("c03:neg:{}:forms-disagree", a.type_name()),
-            format!("{} -> {} but -x with x={} -> {}", lit_src, lit.show(), a.canon(), var.show()),
-            json!({"kind": "neg", "a": vjson(a), "form": "both"}),
+            format!("c03:{}:{}:forms-disagree", if n == 1 { "neg" } else { "neg-run" }, a.type_name()),
+            format!("{} -> {} but {} with x={} -> {}", lit_src, lit.show(), var_src, a.canon(), var.show()),
+            json!({"kind": "neg", "a": vjson(a), "n": n, "form": "both"}),
         ));
     }
     out
@@ -453,11 +470,13 @@ fn run(opts: &Opts, acc: &mut Acc) {
     let mut negs = pool.clone();
     negs.extend(misc.clone());
     par_chunks(acc, opts.threads, &negs, |x, a| {
-        for f in check_neg(x, "neg", a) {
-            a.fail(f);
+        for n in 1..=4 {
+            for f in check_neg_run(x, n, "neg", a) {
+                a.fail(f);
+            }
         }
     });
-    acc.mark_exhaustive("neg", "unary minus on every pool value");
+    acc.mark_exhaustive("neg", "runs of 1..4 unary minus signs on every pool value, literal and bound form");
 
     // (4) random operand pairs
     let cases = match (opts.tier, opts.is_dbg()) {
@@ -472,7 +491,8 @@ fn run(opts: &Opts, acc: &mut Acc) {
         let y = gen_num(&mut g);
         let mut fs = check_bin(op, &x, &y, "random", false, a);
         if g.chance(32) {
-            fs.extend(check_neg(&x, "random", a));
+            let n = 1 + g.below(4) as usize;
+            fs.extend(check_neg_run(&x, n, "random", a));
         }
         fs
     });
@@ -497,7 +517,8 @@ fn replay(_opts: &Opts, d: &Value, acc: &mut Acc) {
                 acc.inconclusive.push("bad C03 replay file".into());
                 return;
             };
-            check_neg(&a, "replay", acc)
+            let n = d.get("n").and_then(|n| n.as_u64()).unwrap_or(1) as usize;
+            check_neg_run(&a, n, "replay", acc)
         }
         _ => {
             acc.inconclusive.push(format!("unknown C03 replay kind {:?}", kind));
